@@ -5,7 +5,7 @@
    Model: Check/FailFast.v. R is the result list of the full run in file-list order. A fail-fast
    execution of the parallel loop returns some R' with [ff_sub loaded R R']: a sublist of R that,
    if anything was dropped, contains a result that sets the flag (ff_trigger: Failed and not
-   grandfathered by the loaded baseline). FailFast.v argues that this over-approximates every
+   grandfathered by the loaded baseline). Keys are path_key of the path (fix D08). FailFast.v argues that this over-approximates every
    interleaving of any number of rayon workers under Relaxed ordering; the theorems hold for ALL
    such R', so for every schedule. The model is that of the tree WITH
    fixes/D12-failfast-skips-grandfathered.patch; before it the trigger was is_failed alone and
@@ -95,7 +95,7 @@ Print Assumptions C11_trace_test_sound.
 Definition ga : result := mkResult [46;47;97] Content Failed 12 10 [1].
 Definition gb : result := mkResult [46;47;98] Content Failed 12 10 [2].
 Definition gc : result := mkResult [46;47;99] Content Passed 3 10 [3].
-Definition gbl : option baseline := Some [([46;47;97], EContent 12 [1])].
+Definition gbl : option baseline := Some [([97], EContent 12 [1])].
 Definition ff_fl : flags := mkFlags true None None None false false true.
 
 (* a genuine drop: the sequential run stops after b (a is grandfathered and does not stop it) *)
